@@ -85,6 +85,14 @@ func c13RoundTrip(r *hx.Run, tag string, p protocol.Protocol, dids []*fx.DIDOps,
 	fail := func(class, msg string) {
 		r.Violation(class, caseID, fmt.Sprintf("batch [%s]: %s", strings.Join(names, ","), msg), map[string]interface{}{"batch": names})
 	}
+	// the handler has just refused another batch part-way through (its second operation does not parse): nothing of that
+	// batch may linger in the handler
+	if len(queued) > 0 {
+		refused := []*operation.QueuedOperation{queued[0], {Type: operation.TypeUpdate, OperationRequest: []byte(`{"type":"update"`), UniqueSuffix: "EiGarbage", Namespace: ns}}
+		if _, e := ver.Handler.PrepareTxnFiles(refused); e == nil {
+			fail("unparseable-operation-batched", "a batch containing an operation that does not parse was written")
+		}
+	}
 	var info *protocol.AnchoringInfo
 	var err error
 	func() {
